@@ -81,11 +81,11 @@ def detect(sid, checks):
         print("refusing: /repo has uncommitted changes\n" + st)
         return 2
     a = sh(f"git -C /repo apply {dst}/patch.diff")
+    if a.returncode and (dst / "patch_rebased.diff").exists():
+        a = sh(f"git -C /repo apply {dst}/patch_rebased.diff")
     if a.returncode:
-        a = sh(f"git -C /repo apply --3way {dst}/patch.diff")
-    if a.returncode:
-        print("patch does not apply to current /repo:", a.stderr[-300:])
-        sh("git -C /repo checkout -- . ; git -C /repo reset -q")
+        print("patch does not apply to current /repo (port it by hand into patch_rebased.diff):", a.stderr[-300:])
+        sh("git -C /repo checkout -f HEAD -- . ; git -C /repo reset -q")
         return 2
     res = {}
     try:
@@ -99,7 +99,7 @@ def detect(sid, checks):
             for s_ in sig[:4]:
                 print("   ", s_)
     finally:
-        sh("git -C /repo reset -q; git -C /repo checkout -- .")
+        sh("git -C /repo checkout -f HEAD -- . ; git -C /repo reset -q")
     head = sh("git -C /repo rev-parse --short HEAD").stdout.strip()
     meta.setdefault("detection", {})
     for c, v in res.items():
